@@ -39,6 +39,24 @@ type Case struct {
 	// Summary > 0 (posts): the post also has a summary (an abstract / content warning) that contains a link with this
 	// label id. The pinned tree does not show a post's summary; a tree that does must number that link like any other.
 	Summary int `json:"summary,omitempty"`
+	// Other > 0: after the item has been shown and before its numbers are selected, another post with this many links
+	// (to other addresses) is parsed and shown, as happens whenever a page holds more than one item (seed C12-K).
+	Other int `json:"other,omitempty"`
+}
+
+// showAnother parses and renders an unrelated post with n links, the way the next item of a page would be.
+func showAnother(n int, width int) {
+	body := ""
+	for i := 0; i < n; i++ {
+		body += fmt.Sprintf(`<a href="https://elsewhere.example/other/%d">elsewhere %d</a> <img src="https://elsewhere.example/pic/%d" alt="pic"> `, i, i, i)
+	}
+	for _, mt := range []string{"text/html", "text/markdown"} {
+		other, err := pub.NewPostFromObject(object.Object{"type": "Note", "content": "<p>" + body + "</p>", "mediaType": mt}, nil)
+		if err == nil {
+			_ = other.String(width + 1)
+			_ = other.String(width)
+		}
+	}
 }
 
 func build(c Case) (pub.Tangible, error) {
@@ -229,6 +247,10 @@ func check(c Case) vrep.Result {
 	}
 	N := len(c.Doc.Links) + len(atts)
 	rendered := item.String(c.Width)
+	if c.Other > 0 {
+		classes = append(classes, "another-item-shown-in-between")
+		showAnother(c.Other, c.Width)
+	}
 	bound, err := bind(rendered)
 	if err != nil {
 		return vrep.Result{Classes: classes, Err: fmt.Errorf("%v\nwidth %d, rendering:\n%s", err, c.Width, plainOf(rendered))}
@@ -424,6 +446,9 @@ func gen(t *rapid.T) Case {
 	if c.Kind == "post" && rapid.SampledFrom([]int{0, 0, 0, 0, 1}).Draw(t, "summary") == 1 {
 		next++
 		c.Summary = next
+	}
+	if rapid.IntRange(0, 2).Draw(t, "another") == 1 {
+		c.Other = rapid.IntRange(1, 24).Draw(t, "otherlinks")
 	}
 	if next >= 10 {
 		// a two-digit number broken by wrapping would read as two numbers: keep such documents wide
